@@ -186,7 +186,7 @@ func init() {
 		Cases: func(tier string) int { return tierN(tier, 1000, 60000) },
 		Rule: "case = one history (12-50 ops quick, up to 120 thorough) in which EVERY (re)open independently chooses fast index on/off and which version to load (latest or older), interleaved with writes, removals (incl. written-and-removed inside one version), commits, Rollback, LoadVersion on the live handle, LoadVersionForOverwriting, DeleteVersionsFrom+reload, pruning, redo of an existing version. " +
 			"After every step in a session with the index enabled: Get vs tree-walk GetWithIndex for every probe key on the working tree (incl. uncommitted changes) and on the latest and older versions; MutableTree.Iterator (both directions) and Iterate vs tree-walk IterateRange; GetVersioned vs GetImmutable(v).GetWithIndex; after every commit/open with the index enabled the raw 'f' entries decoded by D must equal the model's latest pairs and the label must name the latest version. In sessions with the index disabled the same comparisons run (they must trivially agree) and the model read battery guards against both paths being wrong together. " +
-			"distinct = hash(config, ops); non-trivial = >=2 commits, >=1 session with the index enabled and >=1 of {reopen with a different setting, load of an older version, rollback-to-version, prune}.",
+			"Every 5th case uses its first handle without an initial Load(): a prefix of 3-6 operations writes to the fresh tree, then issues LoadVersion on the store that still has no version (nothing is loaded, the working tree is kept), with or without a Rollback after it, and the planned history follows. distinct = hash(config, ops); non-trivial = >=2 commits, >=1 session with the index enabled and >=1 of {reopen with a different setting, load of an older version, rollback-to-version, prune}.",
 		Assumptions: []string{"tree-walk reads (GetWithIndex, IterateRange) are the reference for indexed reads; the model M guards against both being wrong together", "decoder D for the raw index audit"},
 		Run: func(c *fw.Ctx) {
 			w := map[string]int{"set": 36, "rm": 16, "save": 20, "rollback": 4, "reopen": 10, "load": 5, "delto": 4, "lfo": 4, "delfrom": 2, "redo": 2}
@@ -196,6 +196,7 @@ func init() {
 				p.MaxOps = 120
 			}
 			pl := v1x.MakePlan(c.Rng, p)
+			v1x.LazyPrefix(pl, c.Index)
 			c.Res.Digest = fw.DigestOf(pl.Cfg, pl.Summary(1000))
 			if c.Index < 2 {
 				c.Res.Sample = pl.Summary(60)
